@@ -175,6 +175,43 @@ theorem unmarshal_exact (buf : List Byte) (b' : Bit1024) (h : unmarshal empty102
       · rintro ⟨v, hv, hb⟩
         rw [hv]; simpa using hb
 
+/-- `Unmarshal` into an arbitrary (non-fresh) bitmap, as the code behaves: the receiver is **not** cleared. No bytes
+    leave it untouched; the sparse form (< 128 bytes) *adds* the listed elements to what was there; only the dense form
+    (128 bytes) overwrites all 16 words. Hence "yields exactly the set the bytes denote" needs a fresh target. -/
+theorem unmarshal_into (b : Bit1024) (buf : List Byte) (b' : Bit1024) (h : unmarshal b buf = .ok b') :
+    ∀ i, i < 1024 → (mem1024 b' i = true ↔
+      (if buf = [] then mem1024 b i = true
+       else if buf.length < 128 then (mem1024 b i = true ∨ denotes buf i)
+       else denotes buf i)) := by
+  intro i hi
+  unfold unmarshal at h
+  simp only at h
+  split at h
+  · rename_i h0
+    have : buf = [] := List.length_eq_zero_iff.1 h0
+    cases h; simp [this]
+  · rename_i h0
+    have hne : buf ≠ [] := fun e => h0 (by simp [e])
+    split at h; · cases h
+    split at h; · cases h
+    split at h
+    · rename_i hlt
+      rw [unmSparse_ok buf _ _ _ h i hi]
+      simp only [denotes, hlt, if_true, List.mem_range, hne, if_false]
+    · rename_i hlt
+      have hk : i / 64 < 16 := by omega
+      have hw := unmDense_ok buf _ _ _ h (i / 64) hk
+      simp only [List.mem_range, hk, if_true] at hw
+      rw [mem1024_eq_word, hw]
+      simp only [denotes, hlt, if_false, hne]
+      constructor
+      · intro hb
+        cases hr : rd64 buf (i / 64 * 8) with
+        | none => rw [hr] at hb; simp at hb
+        | some v => rw [hr] at hb; exact ⟨v, rfl, by simpa using hb⟩
+      · rintro ⟨v, hv, hb⟩
+        rw [hv]; simpa using hb
+
 /-- what makes `Unmarshal` fail: too long, odd length, or (sparse form) an element outside 0..1023 -/
 theorem unmarshal_rejects (b : Bit1024) (buf : List Byte) (h : buf.length > 128 ∨ buf.length % 2 = 1) :
     ∃ e, unmarshal b buf = .err e b := by
